@@ -56,6 +56,10 @@ const (
 	KValExit = "validator_exit"
 	// the operator of a removed validator creates it again (same operator address and consensus key)
 	KValCreate = "validator_create"
+	// the module state is exported, every alliance key deleted and the export imported again, in
+	// place (a chain restart from an exported genesis): nothing observable may change, so every
+	// property's oracle keeps judging the history that follows
+	KReimport = "export_import_in_place"
 )
 
 // Op is one concrete step of a history.
@@ -582,6 +586,10 @@ func (x *Exec) run(op *Op) Res {
 		})
 	case KExportImp:
 		return x.direct(func(ctx sdk.Context) error {
+			return ExportImport(w, ctx)
+		})
+	case KReimport:
+		return x.tx(func(ctx sdk.Context) error {
 			return ExportImport(w, ctx)
 		})
 	case KValExit:
